@@ -15,10 +15,10 @@ type Scn struct {
 	Kind    string `json:"kind_of_scenario"` // "Cancel"
 	Shape   string `json:"shape"`
 	Role    string `json:"role"`
-	N       int    `json:"n"`      // I/O steps of the shape (counted on the real code)
-	K       int    `json:"k"`      // stalled step (0: the peer never stalls)
-	J       int    `json:"j"`      // step the firing is attached to (0: none)
-	Timing  string `json:"timing"` // timing class of the model
+	N       int    `json:"n"`        // I/O steps of the shape (counted on the real code)
+	K       int    `json:"k"`        // stalled step (0: the peer never stalls)
+	J       int    `json:"j"`        // step the firing is attached to (0: none)
+	Timing  string `json:"timing"`   // timing class of the model
 	CtxKind string `json:"ctx_kind"` // "cancel" | "deadline" | "background"
 	CtxImpl string `json:"ctx_impl"` // "std" (context.WithCancel/WithDeadline/Background) | "probe"
 	Partial bool   `json:"partial"`  // the stalled step transfers half of its bytes first
@@ -35,9 +35,10 @@ type Obs struct {
 	Returned   bool    `json:"returned"`
 	ErrClass   string  `json:"err_class"` // "none" | "ctx" | "other"
 	ErrText    string  `json:"err,omitempty"`
-	LatencyMs  float64 `json:"latency_ms"` // from the firing of the context to the return
-	Closed     bool    `json:"closed"`     // the code under test closed the connection (within 1 s of the return)
-	Fired      bool    `json:"fired"`      // the planned firing point was reached
+	LatencyMs  float64 `json:"latency_ms"`         // from the firing of the context to the return
+	Closed     bool    `json:"closed"`             // the code under test closed the connection (within 1 s of the return)
+	Fired      bool    `json:"fired"`              // the planned firing point was reached
+	FiredBy    string  `json:"fired_by,omitempty"` // probe context: "stop" (inside cedar's stop()) | "err" (at an Err() check) | "cancel"
 	StallSeen  bool    `json:"stall_seen"`
 	StallHeld  bool    `json:"stall_held"` // the call was still blocked a moment after the stall began
 	Steps      string  `json:"steps"`      // kinds of the steps started, e.g. "wrrww"
@@ -141,7 +142,7 @@ func exec(e *env, sh *shape, s Scn, needClosed bool) (obs Obs) {
 		}
 	case "between_steps":
 		if probe != nil {
-			probe.ArmAfterStep(s.J, conn.StepsDone)
+			probe.ArmAfterStep(s.J, conn.StepsDone, conn.StepsStarted)
 		}
 	}
 
@@ -176,8 +177,9 @@ func exec(e *env, sh *shape, s Scn, needClosed bool) (obs Obs) {
 		case <-stallCh:
 			obs.StallSeen = true
 			if stdDeadline {
-				// nothing to do: the deadline fires on its own
-				obs.StallHeld = !waitRet(0)
+				// nothing to do: the deadline fires on its own (that the stalled step really
+				// blocks is sampled by the cancel runs of the same step)
+				obs.StallHeld = true
 			} else {
 				obs.StallHeld = !waitRet(10 * time.Millisecond)
 				fire()
@@ -199,6 +201,7 @@ func exec(e *env, sh *shape, s Scn, needClosed bool) (obs Obs) {
 	mu.Unlock()
 	if probe != nil && !probe.FiredAt().IsZero() {
 		fa = probe.FiredAt()
+		obs.FiredBy = probe.FiredBy()
 	}
 	if stdDeadline {
 		switch s.Timing {
@@ -220,10 +223,11 @@ func exec(e *env, sh *shape, s Scn, needClosed bool) (obs Obs) {
 		fa = t0 // the call could not have returned earlier than it was made
 	}
 	obs.Fired = !fa.IsZero() || s.Timing == "never"
-	if s.Timing == "after_return" && stdDeadline && returned {
+	if s.Timing == "after_return" && stdDeadline && returned && obs.Inconcl == "" {
 		// let the deadline pass: it must not disturb anything
-		if w := time.Until(deadline) + 5*time.Millisecond; w > 0 {
-			time.Sleep(w)
+		select {
+		case <-ctx.Done():
+		case <-time.After(time.Until(deadline) + 2*time.Second):
 		}
 		obs.Fired = ctx.Err() != nil
 	}
